@@ -44,6 +44,7 @@ Definition run190 (s : list N) : list N :=
               | _ => [999] end
   | 7 :: r => match rd_packet r with Some (p, []) => wr_flag (get_observe_flag p) | _ => [999] end
   | 8 :: r => run60 (7 :: r)
+  | 12 :: r => run60 (6 :: r)
   | 9 :: r | 10 :: r =>
     match rd_packet r with
     | Some (src, r') => match rd_packet r' with
@@ -82,6 +83,7 @@ Definition in_domain190 (s : list N) : bool :=
               | _ => false end
   | 6 :: r => match rd_packet r with Some (p, [f]) => (f <? 2) && pkt_bytes_ok p | _ => false end
   | 8 :: r => in_domain60 (7 :: r)
+  | 12 :: r => in_domain60 (6 :: r)
   | 9 :: r | 10 :: r => match rd_packet r with
                         | Some (src, r') => match rd_packet r' with Some (dst, []) => pkt_bytes_ok src && pkt_bytes_ok dst | _ => false end
                         | _ => false end
@@ -129,6 +131,7 @@ Definition spec190 (s : list N) : option (list N) :=
                       end)
               | _ => None end
   | 8 :: r => spec60 (7 :: r)
+  | 12 :: r => spec60 (6 :: r)
   | 9 :: r | 10 :: r =>
     match rd_packet r with
     | Some (src, r') =>
